@@ -12,7 +12,7 @@ for each encoded length (shared with C17 clause B).
 """
 import sys
 from .. import facts as F
-from ..absint import (Interp, TOP, OPTION, none, some, const_int, mk_int, int_singleton, TRUE, FALSE, BOOL)
+from ..absint import (place_index, Interp, TOP, OPTION, none, some, const_int, mk_int, int_singleton, TRUE, FALSE, BOOL)
 from .common import lib_crate
 from . import C14 as base
 from . import session
@@ -29,14 +29,16 @@ class R:
         self.tok = tok
 
     def inline_ok(self, I, ci, body):
-        return False
+        # helper methods of the iterator itself (e.g. a `pop_short_option`) are looked into
+        return base.self_adt(body) == 'arguments::ArgsIter' and body.kind == 'AssocFn' and (body.impl_trait is None) and not any(
+            b['term']['k'] == 'call' and F.norm_path((b['term']['func'] or {}).get('path') or '') == body.npath for b in body.blocks)
 
     def on_load(self, I, w, depth, place):
         v = w.store.get((depth, place['l']), TOP)
         if v != ('sym', 'token'):
             return None
-        idx = [e for e in place['p'] if e['k'] == 'index'][0]['l']
-        n = int_singleton(w.store.get((depth, idx), TOP))
+        iv = place_index(w, depth, place)
+        n = int_singleton(iv) if iv is not None and iv[0] == 'int' else None
         ln, d0, d1 = self.tok
         other = mk_int(x for x in range(256) if x != DASH)
         if n == 0:
@@ -44,6 +46,13 @@ class R:
         if n == 1:
             return [(w, const_int(DASH) if d1 else other)]
         return [(w, mk_int(range(256)))]
+
+    def token_len(self):
+        return {'0': const_int(0), '1': const_int(1), '2': const_int(2), '>=3': ('int', frozenset(), 3)}[self.tok[0]]
+
+    def on_len(self, I, w, x):
+        # `match bytes { [a, b, ..] => .. }` reads the length through the slice's metadata
+        return self.token_len() if x == ('sym', 'token') and self.tok is not None else None
 
     def on_call(self, I, w, ci, args):
         p = ci.nresolved or ci.npath or ''
